@@ -11,12 +11,17 @@ import (
 	"strings"
 )
 
-// idiomContext: the occurrence sits where LuaHelper documents a deliberate suppression (x = x or v,
-// if not x, x == nil / x ~= nil, and/or operands): DON'T-CARE for undefined-variable expectations.
+// idiomContext: the occurrence sits where LuaHelper deliberately suppresses the undefined-variable report: DON'T-CARE.
+// The tool's idioms (analysis_exp.go cgUnopExp / cgBinopExp, analysis_stat.go cgAssignStat) are
+//   - inside the condition of an if / elseif: the operand of `not`, and the left operand of `== nil`;
+//   - in the values of an assignment or local declaration: operands of `or` (x = x or v).
+// Everything else - `not x` or `x == nil` in ordinary expressions, operands of and / ~= / other comparisons, plain
+// names as conditions, while / until conditions - is asserted.
 func c07IdiomContext(f *SFile, o *Occ) bool {
 	found := false
-	var visit func(e *Node, inIdiom bool)
-	visit = func(e *Node, inIdiom bool) {
+	// mode: 0 = ordinary expression, 1 = inside an if condition, 2 = inside a value of an assignment / local
+	var visit func(e *Node, mode int, inIdiom bool)
+	visit = func(e *Node, mode int, inIdiom bool) {
 		if e == nil || found {
 			return
 		}
@@ -27,55 +32,82 @@ func c07IdiomContext(f *SFile, o *Occ) bool {
 			return
 		}
 		if e.K == EFunction {
-			visitBlock(e.Fn.Body, visit)
+			// the flag of an enclosing if condition stays set while a function literal inside it is analysed
+			c07VisitBlock(e.Fn.Body, visit, mode == 1)
 			return
 		}
-		child := false
+		a, b := inIdiom, inIdiom
 		switch e.K {
 		case EBinop:
 			switch e.Tok.Text {
-			case "==", "~=", "and", "or":
-				child = true
+			case "==":
+				if mode == 1 && e.B != nil && e.B.K == ENil {
+					a = true
+				}
+			case "or":
+				if mode == 2 {
+					a, b = true, true
+				}
 			}
 		case EUnop:
-			if e.Tok.Text == "not" {
-				child = true
+			if e.Tok.Text == "not" && mode == 1 {
+				a = true
 			}
-		case EParen:
-			child = inIdiom
 		}
-		visit(e.A, child)
-		visit(e.B, child)
-		visit(e.C, false)
+		visit(e.A, mode, a)
+		visit(e.B, mode, b)
+		visit(e.C, mode, inIdiom)
 		for _, x := range e.List {
-			visit(x, false)
+			visit(x, mode, inIdiom)
 		}
 	}
-	visitBlockStats(f.Parse.Chunk, func(s *Node) {
-		switch s.K {
-		case SIf:
-			for _, cnd := range s.List {
-				visit(cnd, true)
-			}
-		case SWhile, SRepeat:
-			visit(s.A, true)
-		default:
-			visit(s.A, false)
-			visit(s.B, false)
-			visit(s.C, false)
-			for _, x := range s.List {
-				visit(x, false)
-			}
-			for _, x := range s.List2 {
-				visit(x, false)
-			}
-		}
-	}, visit)
+	c07VisitBlock(f.Parse.Chunk, visit, false)
 	return found
 }
 
+// c07VisitBlock walks every statement of the block (all depths) and hands its expressions to visit with the mode of
+// their position. sticky: the block belongs to a function literal written inside an if condition.
+func c07VisitBlock(b *Node, visit func(e *Node, mode int, inIdiom bool), sticky bool) {
+	base := 0
+	if sticky {
+		base = 1
+	}
+	visitBlockStats(b, func(s *Node) {
+		switch s.K {
+		case SIf:
+			for _, cnd := range s.List {
+				visit(cnd, 1, false)
+			}
+		case SLocal, SAssign:
+			visit(s.A, base, false)
+			visit(s.B, base, false)
+			visit(s.C, base, false)
+			for _, x := range s.List {
+				visit(x, base, false)
+			}
+			for _, x := range s.List2 {
+				m := 2
+				if sticky {
+					m = 1
+				}
+				visit(x, m, false)
+			}
+		default:
+			visit(s.A, base, false)
+			visit(s.B, base, false)
+			visit(s.C, base, false)
+			for _, x := range s.List {
+				visit(x, base, false)
+			}
+			for _, x := range s.List2 {
+				visit(x, base, false)
+			}
+		}
+	}, nil)
+}
+
 // visitBlockStats calls fn on every statement of the chunk (all depths); expression visitors handle function literals via visitBlock.
-func visitBlockStats(b *Node, fn func(s *Node), visit func(e *Node, inIdiom bool)) {
+func visitBlockStats(b *Node, fn func(s *Node), _ interface{}) {
 	var walk func(b *Node)
 	walk = func(b *Node) {
 		if b == nil {
@@ -97,31 +129,6 @@ func visitBlockStats(b *Node, fn func(s *Node), visit func(e *Node, inIdiom bool
 		}
 	}
 	walk(b)
-	_ = visit
-}
-
-// visitBlock lets an expression visitor descend into a function literal's statements.
-func visitBlock(b *Node, visit func(e *Node, inIdiom bool)) {
-	visitBlockStats(b, func(s *Node) {
-		switch s.K {
-		case SIf:
-			for _, cnd := range s.List {
-				visit(cnd, true)
-			}
-		case SWhile, SRepeat:
-			visit(s.A, true)
-		default:
-			visit(s.A, false)
-			visit(s.B, false)
-			visit(s.C, false)
-			for _, x := range s.List {
-				visit(x, false)
-			}
-			for _, x := range s.List2 {
-				visit(x, false)
-			}
-		}
-	}, visit)
 }
 
 // topLevelAssignIndex: statement index (in the chunk's top block) of a top-level write; -1 if the write is nested.
